@@ -15,7 +15,7 @@ for l in open(os.path.join(V, "properties.jsonl")):
     subprocess.run("git -C /repo worktree remove --force %s" % wt, shell=True, capture_output=True)
     subprocess.run("git -C /repo worktree add -q --detach %s HEAD" % wt, shell=True, check=True)
     ideas = []
-    for n in "abcdefgh":
+    for n in "abcdefghijklmnopqrstuvwxyz":
         f = os.path.join(V, "seeded", "%s-%s" % (pid, n), "NOTES.md")
         if os.path.exists(f):
             t = " ".join(open(f).read().split())
